@@ -6,7 +6,8 @@ import scipy.linalg
 
 from symnp.array import NP_OVERRIDES, SymArray, _sym_sqrt, as0d, h_eigvalsh, h_norm, has_sym, kernel, sarr, sp_inv, sp_sqrtm
 from symnp.core import And, Not, Or, Sym, SymBool
-from symnp.harness import Obligation, eq
+from symnp.harness import Obligation, eq, jsonable
+from props.common import Task
 from toqito.state_metrics import (bures_angle, bures_distance, fidelity, fidelity_of_separability, helstrom_holevo,
                                   hilbert_schmidt, hilbert_schmidt_inner_product, matsumoto_fidelity, sub_fidelity,
                                   trace_distance)
@@ -299,10 +300,19 @@ def ob_formula(fname, d, field, r1, r2):
                 continue
             re_ = (A @ A.T) / np.trace(A @ A.T)
             cx_ = (B @ B.conj().T) / np.trace(B @ B.conj().T).real
-            out += [{"rho": re_.astype(float), "sigma": cx_}, {"rho": cx_, "sigma": re_.astype(float)}]
+            if field == "complex":
+                out += [{"rho": re_.astype(float), "sigma": cx_}, {"rho": cx_, "sigma": re_.astype(float)}]
+        if min(r1, r2) == 1 and d >= 3:
+            # exactly one pure state against a full-rank mixed one, both orders (where pure-state shortcuts must not fire)
+            v = rng.integers(-4, 5, size=(d, 1)) / 4.0 + (1j * rng.integers(-4, 5, size=(d, 1)) / 4.0 if field == "complex" else 0)
+            v[0, 0] += 1.0
+            pure = (v @ v.conj().T) / np.vdot(v, v).real
+            M = rng.integers(-4, 5, size=(d, d)) / 4.0 + (1j * rng.integers(-4, 5, size=(d, d)) / 4.0 if field == "complex" else 0) + 2 * np.eye(d)
+            mixed_ = (M @ M.conj().T) / np.trace(M @ M.conj().T).real
+            out += [{"rho": pure, "sigma": mixed_}, {"rho": mixed_, "sigma": pure}]
         return out
     return Obligation(f"{fname}.equals_documented_formula", cfg, build, call, oracle, assume=psd_kernel_assume,
-                      valid=valid_density_pair, witness=witness if field == "complex" else None,
+                      valid=valid_density_pair, witness=witness,
                       weight=d * d * (3 if field == "complex" else 1) * (20 if fname == "sub_fidelity" else 1))
 
 
@@ -512,15 +522,119 @@ def ob_fos_reject(dims):
                       extra_patch={"toqito.state_metrics.fidelity_of_separability": {"is_pure": _stop}}, weight=d)
 
 
+class FosStateProductTask(Task):
+    """fidelity of separability of a pure PRODUCT state |a>|b> with unequal local dimensions: the picos program the real function
+    hands to the solver is captured; z3 decides that X = rho, sigma = |a><a| (x) |b><b|^{(x)k} satisfies every equality of the
+    captured program, that each PSD-constrained operator at that point is an explicit Gram form ([[1,1],[1,1]] (x) rho for the
+    block constraint; |a><a| (x) (|b><b| or its transpose)^{(x)k} for sigma and its partial transposes) and that the objective
+    there is 1, i.e. the returned value (objective squared) attains 1.  The upper half (objective <= 1 on the feasible set) is
+    outside what the uninterpreted PSD predicate can show."""
+    engine = "E2-sdpcap (T3 certificate in z3)"
+    weight = 40
+
+    def __init__(self, dims, k):
+        super().__init__("fidelity_of_separability.product_state_program_admits_the_product_extension_with_value_one",
+                         {"dims_A_B": list(dims), "k": k})
+        self.dims, self.k = tuple(dims), k
+
+    def _instance(self):
+        unit = {2: np.array([3, 4j]) / 5, 3: np.array([2, -2j, 1]) / 3, 4: np.array([1, 1j, -1, 1]) / 2}
+        dA, dB = self.dims
+        a, b = unit[dA], unit[dB].conj()
+        return np.kron(np.outer(a, a.conj()), np.outer(b, b.conj())), a, b
+
+    def _run(self, rec, seed):
+        import itertools
+        import z3
+        from sdpcap.capture import capture_call, extract
+        from sdpcap.embed import coord_values, linear_constraints, objective_term, prove, rv
+        dA, dB = self.dims
+        k = self.k
+        rho, a, b = self._instance()
+        cap = capture_call(lambda: fidelity_of_separability(rho, list(self.dims), k))
+        if cap is None:
+            rec["notes"].append("no Problem.solve was reached: zero coverage")
+            return
+        prog = extract(cap)
+        rec["programs"] = 1
+        rec["program"] = prog.summary()
+        N, n = dA * dB, dA * dB ** k
+        byname = {v.name: i for i, v in enumerate(prog.vars)}
+        if set(byname) != {"x_ab", "s_ab_k"} or tuple(prog.vars[byname["s_ab_k"]].shape) != (n, n) or tuple(prog.vars[byname["x_ab"]].shape) != (N, N):
+            rec["notes"].append(f"captured variables {[(v.name, v.shape) for v in prog.vars]} are not X ({N}x{N}) and sigma ({n}x{n})")
+            if self._replay_value(rec, rho):
+                rec["status"] = "violation"
+            return
+        aa, bb = np.outer(a, a.conj()), np.outer(b, b.conj())
+
+        def point(transposed):
+            M = aa
+            for c in range(k):
+                M = np.kron(M, bb.T if c in transposed else bb)
+            return M
+        S0 = point(())
+
+        def zr(M):
+            return [[rv(x) for x in row] for row in np.real(M)], [[rv(x) for x in row] for row in np.imag(M)]
+        cv = [None, None]
+        cv[byname["x_ab"]] = coord_values(prog.vars[byname["x_ab"]], *zr(rho))
+        cv[byname["s_ab_k"]] = coord_values(prog.vars[byname["s_ab_k"]], *zr(S0))
+        conj, psd_list, _ = linear_constraints(prog, cv)
+        obj = objective_term(prog, cv)
+        grams = [np.kron(np.ones((2, 2)), rho)]
+        for sz in range(k + 1):
+            for Tt in itertools.combinations(range(k), sz):
+                grams.append(point(Tt))
+        gram_ok = []
+        for re, im in psd_list:
+            alts = [z3.And(*[z3.And(re[i, j] == rv(G[i, j].real), im[i, j] == rv(G[i, j].imag)) for i in range(G.shape[0]) for j in range(G.shape[1])])
+                    for G in grams if G.shape == re.shape]
+            gram_ok.append(z3.Or(*alts) if alts else z3.BoolVal(False))
+        r, _ = prove(z3.Not(z3.And(*conj, *gram_ok, obj == 1)))
+        r2, _ = prove(z3.Not(z3.And(*conj, *gram_ok, obj == rv(0.5))))
+        r3, _ = prove(z3.BoolVal(True), conj)
+        rec["queries"], rec["neg_control"], rec["reachable"] = 3, r2 == "sat", r3 == "sat"
+        if r == "unsat" and r2 == "sat" and r3 == "sat":
+            rec["status"] = "discharged"
+            return
+        rec["notes"].append(f"certificate query: {r}")
+        if r == "sat" and self._replay_value(rec, rho):
+            rec["status"] = "violation"
+
+    def _replay_value(self, rec, rho):
+        try:
+            got = float(np.real(fidelity_of_separability(rho, list(self.dims), self.k)))
+        except Exception as e:  # noqa: BLE001
+            rec["violation"] = {"source": "the real function raises on a pure product state (reproduced)", "inputs": jsonable(self.cfg),
+                                "exception": f"{type(e).__name__}: {str(e)[:300]}"}
+            return True
+        if abs(got - 1) > 1e-4:
+            rec["violation"] = {"source": "certificate mismatch reproduced numerically with the real solver", "inputs": jsonable(self.cfg),
+                                "actual": got, "expected": 1.0}
+            return True
+        rec["notes"].append(f"the program does not admit the product certificate but the real value is {got:.6f}")
+        return False
+
+    def replay(self, rp):
+        rec = {"notes": []}
+        bad = self._replay_value(rec, self._instance()[0])
+        print(rec.get("violation", rec["notes"]))
+        return not bad
+
+
 def obligations(tier):
     T = tier == "thorough"
     obs = []
+    for dims, k in [((2, 3), 1), ((2, 3), 2), ((3, 2), 1)] + ([((3, 2), 2), ((2, 4), 2), ((2, 3), 3)] if T else []):
+        obs.append(FosStateProductTask(dims, k))
     kernel_fns = ["fidelity", "trace_distance", "helstrom_holevo", "bures_distance", "bures_angle"]
     poly_fns = ["hilbert_schmidt", "sub_fidelity"]
     # (d, field, ranks)
-    fam = [(2, "real", 2, 2), (2, "complex", 2, 2), (2, "complex", 1, 2), (2, "complex", 2, 1), (2, "complex", 1, 1), (3, "real", 3, 3)]
+    # (one pure, one mixed state in dimension 3: the smallest case where pure-state shortcuts stop coinciding with the definition)
+    fam = [(2, "real", 2, 2), (2, "complex", 2, 2), (2, "complex", 1, 2), (2, "complex", 2, 1), (2, "complex", 1, 1), (3, "real", 3, 3),
+           (3, "complex", 1, 3), (3, "real", 3, 1)]
     if T:
-        fam += [(3, "complex", 3, 3), (3, "complex", 1, 3), (3, "complex", 2, 1), (3, "real", 2, 3), (4, "real", 4, 4), (4, "real", 1, 2), (4, "complex", 4, 4)]
+        fam += [(3, "complex", 3, 3), (3, "complex", 2, 1), (3, "real", 2, 3), (4, "real", 4, 4), (4, "real", 1, 2), (4, "complex", 4, 4)]
     for fn in kernel_fns:
         for (d, fld, r1, r2) in fam:
             obs.append(ob_formula(fn, d, fld, r1, r2))
